@@ -45,7 +45,39 @@ def parseVOp (t : String) : Option VOp :=
     | some i, some v => some (.set i v)
     | _, _ => none
   | ["len"] => some .len
+  | ["res", n] => n.toInt?.map .reserve
   | _ => none
+
+/-- a `vec` line: optional constructor `new:of:v` / `new:cap:n`, then calls; `cap` = capacity() -/
+inductive Tok
+  | op (o : VOp)
+  | cap
+
+def parseTok (t : String) : Option Tok :=
+  if t == "cap" then some .cap else (parseVOp t).map .op
+
+def tsToks : List Int → List Tok → List String
+  | _, [] => []
+  | t, .cap :: r => s!"v{tsCapacity t}" :: tsToks t r
+  | t, .op o :: r =>
+    match tsVecStep t o with
+    | (_, .fail m) => [showRes "P" (.fail m)]
+    | (t', x) => showRes "P" x :: tsToks t' r
+
+def wasmToks : WVec → List Tok → List String
+  | _, [] => []
+  | w, .cap :: r => s!"v{wasmCapacity w}" :: wasmToks w r
+  | w, .op o :: r =>
+    match wasmVecStep w o with
+    | (_, .fail m) => [showRes "T" (.fail m)]
+    | (w', x) => showRes "T" x :: wasmToks w' r
+
+def parseElems (s : String) : Option (List Int) :=
+  if s == "-" then some [] else (s.splitOn ",").mapM String.toInt?
+
+def wasmOfList (l : List Int) : WVec := l.foldl (fun w v => (wasmVecStep w (.push v)).1) WVec.empty
+
+def asciiString (l : List Nat) : String := String.ofList (l.map Char.ofNat)
 
 def step (_ : Unit) (line : String) : Unit × String :=
   let line := if line.startsWith "!" then (line.drop 1).toString else line
@@ -77,13 +109,34 @@ def step (_ : Unit) (line : String) : Unit × String :=
         | some n => s!"i:{n}"
         | none => "nan"
       s!"{t} {showW (wasmToInt (s.flatMap utf8))}"
-  | "vec" :: ops =>
-    match ops.mapM parseVOp with
-    | none => "bad-op"
-    | some ops =>
-      let t := tsVecRun [] ops
-      let w := wasmVecRun WVec.empty ops
-      s!"{",".intercalate (t.map (showRes "P"))} {",".intercalate (w.map (showRes "T"))}"
+  | "vec" :: toks =>
+    let (init, toks) : Option (List Int × WVec) × List String := match toks with
+      | c :: r =>
+        match c.splitOn ":" with
+        | ["new", "of", v] => (v.toInt?.map fun v => (tsVecOf v, wasmVecOf v), r)
+        | ["new", "cap", n] => ((n.toInt?.bind wasmVecWithCapacity).map fun w => ([], w), r)
+        | _ => (some ([], WVec.empty), toks)
+      | [] => (some ([], WVec.empty), toks)
+    match init, toks.mapM parseTok with
+    | some (t0, w0), some ts =>
+      s!"{",".intercalate (tsToks t0 ts)} {",".intercalate (wasmToks w0 ts)}"
+    | _, _ => "bad-op"
+  | ["veq", a, b] =>
+    match parseElems a, parseElems b with
+    | some a, some b =>
+      let wa := wasmOfList a
+      let wb := wasmOfList b
+      s!"v{tsVecEq false a b},v{tsVecEq false b a},v{tsVecEq true a a} v{wasmVecEq false wa wb},v{wasmVecEq false wb wa},v{wasmVecEq true wa wa}"
+    | _, _ => "bad-op"
+  | ["seq", ha, na, hb, nb] =>
+    match textOfHex ha, na.toInt?, textOfHex hb, nb.toInt? with
+    | some a, some na, some b, some nb =>
+      let ta := tsStrConcat a (tsFromInt na)
+      let tb := tsStrConcat b (tsFromInt nb)
+      let wa := wasmStrConcat a (wasmFromInt na)
+      let wb := wasmStrConcat b (wasmFromInt nb)
+      s!"v{tsStrEq ta tb},v{1 - tsStrEq ta tb},s{asciiString (tsStrConcat ta tb)} v{wasmStrEq false wa wb},v{1 - wasmStrEq false wa wb},s{asciiString (wasmStrConcat wa wb)}"
+    | _, _, _, _ => "bad-op"
   | _ => "bad-op")
 
 def run : IO Unit := runLoop () step
